@@ -127,6 +127,18 @@ func Gen(t *rapid.T, c GenCfg) Prog {
 				p.Ops = append(p.Ops, Op{Kind: k, Writes: genWrites(t, p.Spec, len(p.Keys))})
 			}
 			continue
+		case "wbatch": // a small WriteBatch (one internal transaction); A odd: it also carries one explicitly versioned entry (WriteList)
+			seen := map[int]bool{}
+			for j, m := 0, rapid.IntRange(1, 4).Draw(t, "nwrites"); j < m; j++ {
+				w := W{Key: rapid.IntRange(0, len(p.Keys)-1).Draw(t, "key"), VSize: rapid.SampledFrom([]int{0, 1, 8, 24}).Draw(t, "vsize")}
+				if seen[w.Key] {
+					continue
+				}
+				seen[w.Key] = true
+				w.Del = rapid.IntRange(0, 5).Draw(t, "del") == 0
+				op.Writes = append(op.Writes, w)
+			}
+			op.A = rapid.IntRange(0, 1).Draw(t, "mixed")
 		case "batchrot": // macro: an asynchronous burst big enough to fill a memtable, so that the rotation falls inside a write batch
 			vs := int(p.Spec.MemTableSize / 48)
 			if T := int(p.Spec.ValueThreshold); T-1 >= 32 && T-1 < vs {
@@ -257,6 +269,20 @@ func (p Prog) States() (states []State, kinds []string) {
 					cur[k] = val(seq, w.VSize)
 				}
 			}
+		case "wbatch":
+			for _, w := range op.Writes {
+				seq++
+				k := string(p.Keys[w.Key%len(p.Keys)])
+				if w.Del {
+					delete(cur, k)
+				} else {
+					cur[k] = val(seq, w.VSize)
+				}
+			}
+			if op.A%2 == 1 {
+				seq++
+				cur[string(versionedKey(len(states)))] = val(seq, 12)
+			}
 		case "dropprefix":
 			pre := p.prefixOf(op)
 			for k := range cur {
@@ -270,8 +296,10 @@ func (p Prog) States() (states []State, kinds []string) {
 			continue
 		}
 		states = append(states, cur.clone())
-		if op.Kind == "atxn" || op.Kind == "atxnwait" {
+		if op.Kind == "atxn" || op.Kind == "atxnwait" || (op.Kind == "wbatch" && op.A%2 == 0) {
 			kinds = append(kinds, "txn")
+		} else if op.Kind == "wbatch" {
+			kinds = append(kinds, "mixbatch")
 		} else {
 			kinds = append(kinds, op.Kind)
 		}
@@ -279,12 +307,17 @@ func (p Prog) States() (states []State, kinds []string) {
 	return
 }
 
+// versionedKey is the key of the explicitly versioned entry of the n-th (1-based) state-changing op:
+// a key nothing else writes, so that its version (1, below every commit timestamp) never competes
+// with another version of the same key.
+func versionedKey(n int) []byte { return []byte(fmt.Sprintf("wbv%04d", n)) }
+
 // stateOp returns the i-th (0-based) state-changing op.
 func (p Prog) stateOp(i int) Op {
 	n := 0
 	for _, op := range p.Ops {
 		switch op.Kind {
-		case "txn", "atxn", "atxnwait", "dropprefix", "dropall":
+		case "txn", "atxn", "atxnwait", "wbatch", "dropprefix", "dropall":
 			if n == i {
 				return op
 			}
